@@ -229,6 +229,17 @@ def run_keys(shard, mon, S, only_keys=None):
                 elif oo.value[1] is not None and not lookup.selection_ok(str(oo.value[1]), want_c):
                     mon.viol("same_bban_text_under_other_country_gets_wrong_bic", {"iban": ot, "looked_up_before": text}, want_c, str(oo.value[1]))
                 mon.tally("cross_country_probes")
+                # ... and the same IBAN assembled from the first IBAN's own BBAN *object* (labelled with the first
+                # country): its look-ups are those of the country it was assembled for
+                of2 = observe(lambda: (lambda i: (str(i), i.bank, None if i.bic is None else str(i.bic), i.bank_name))(S.IBAN.from_bban(other, ib.bban)))
+                if not of2.ok:
+                    mon.viol("cross_country_lookup_raised:from_bban_object", {"iban": ot, "bban_object_of": text}, "bank or None", of2.brief())
+                elif of2.value[0] != ot or of2.value[1] != oo.value[0] or of2.value[2] != (None if oo.value[1] is None else str(oo.value[1])) or of2.value[3] != oo.value[2]:
+                    mon.viol("iban_assembled_from_foreign_bban_object_looks_up_under_other_country", {"iban": ot, "bban_object_of": text}, [ot, repr(oo.value[0])[:120], str(oo.value[1])], [of2.value[0], repr(of2.value[1])[:120], of2.value[2]])
+                # the first IBAN still answers as before
+                again = observe(lambda: (ib.bank, ib.bic))
+                if not again.ok or again.value[0] != bank or again.value[1] != bic:
+                    mon.viol("lookup_of_earlier_iban_changed", {"iban": text, "after": ot}, repr(bank)[:100], again.brief())
     mon.sample({"key": list(keys[0]) if keys else None, "candidates": lookup.candidates(idx[keys[0]]) if keys else None})
 
 
